@@ -81,7 +81,7 @@ abbrev Headers := List (Bytes × List Bytes)
 
 def hdrGet (h : Headers) (k : Bytes) : Option (List Bytes) := (h.find? (·.1 = k)).map (·.2)
 def hdrSet (h : Headers) (k : Bytes) (v : List Bytes) : Headers :=
-  if h.any (·.1 = k) then h.map (fun p => if p.1 = k then (k, v) else p) else h ++ [(k, v)]
+  (k, v) :: h.filter (fun p => p.1 ≠ k)
 
 /-- "Sec-Websocket-Extensions" -/
 def hSecExt : Bytes := [83, 101, 99, 45, 87, 101, 98, 115, 111, 99, 107, 101, 116, 45, 69, 120, 116, 101, 110, 115, 105, 111, 110, 115]
